@@ -1,6 +1,10 @@
 package graphql
 
-import "sort"
+import (
+	"errors"
+	"reflect"
+	"sort"
+)
 
 type SchemaConfig struct {
 	Query        *Object
@@ -98,6 +102,9 @@ func NewSchema(config SchemaConfig) (Schema, error) {
 	initialTypes = append(initialTypes, config.Types...)
 
 	for _, ttype := range initialTypes {
+		if ttype == nil || reflect.ValueOf(ttype).IsNil() {
+			return schema, errors.New("Schema types must not contain nil.")
+		}
 		if ttype.Error() != nil {
 			return schema, ttype.Error()
 		}
